@@ -188,13 +188,9 @@ def dump_error(e):
     pos = getattr(e, 'pos', None)
     if isinstance(pos, int) or pos is None:
         d['pos'] = pos
-    msg = getattr(e, 'msg', None)
-    if not isinstance(msg, str):
-        try:
-            msg = str(e)
-        except Exception:
-            msg = '<unprintable>'
-    d['msg'] = scrub(msg)
+    # the message text is deliberately not part of the dump: wording (and e.g. the order in which
+    # alternatives are listed) is not what the properties are about; type, position, line/column,
+    # the machine-readable 'what' and the open contexts are
     for a in ('lineno', 'colno'):
         v = getattr(e, a, None)
         if isinstance(v, int) or v is None:
